@@ -194,7 +194,13 @@ class Result:
     def violation(self, fingerprint, description, replay, has_input=True):
         # a broken tree can disagree on every input: the first 25 distinct violations are reported,
         # the rest only counted
-        if len(self.violations) >= 25:
+        # (repetitions of one fingerprint — e.g. a known finding met on many inputs — do not count)
+        if any(v[0] == fingerprint for v in self.violations):
+            self.extra["repeated_violations"] = self.extra.get("repeated_violations", 0) + 1
+            return
+        # and no more than 8 of one kind (the fingerprint's prefix), so that a later stage still gets a say
+        kind = fingerprint.split(":")[0]
+        if len(self.violations) >= 25 or sum(1 for v in self.violations if v[0].split(":")[0] == kind) >= 8:
             self.extra["further_violations_not_reported"] = self.extra.get("further_violations_not_reported", 0) + 1
             return
         self.violations.append((fingerprint, description, replay, has_input))
